@@ -229,6 +229,20 @@ def make_variant(src_path, ops, seed, out_path):
             d = b.get("Display")
             if d in MIRROR:
                 b.set("Display", MIRROR[d])
+    if "recharge" in ops:
+        # formal charges / radicals re-drawn on some atoms of the page-level fragments (constitution otherwise untouched): the totals
+        # must follow the drawing, also when a nested (contracted) fragment and the main fragment balance each other
+        for fr in page.iter("fragment"):
+            for nd in fr.findall("./n"):
+                if nd.get("NodeType") in ("ExternalConnectionPoint", "MultiAttachment", "GenericNickname", "Unspecified"):
+                    continue
+                u = rng.random()
+                if u < 0.12:
+                    nd.set("Charge", str(int(rng.choice([-1, 1, 1, 2]))))
+                elif u < 0.18 and nd.get("Charge"):
+                    del nd.attrib["Charge"]
+                elif u < 0.22 and nd.get("NodeType") is None:
+                    nd.set("Radical", str(rng.choice(["Doublet", "Singlet"])))
     if "group_all" in ops:
         # every page-level fragment and label selected and grouped (ChemDraw's Group command): one <group> holding them all,
         # in stored or reversed order; which fragment a label names is still decided by the drawing (label under its fragment)
@@ -308,7 +322,7 @@ def write_drawing(spec, path):
     bond orders on skeleton bonds; stereo marks on skeleton->substituent bonds, narrow end at either atom."""
     ids = itertools.count(10)
     out = ['<?xml version="1.0" encoding="UTF-8" ?>', '<CDXML CreationProgram="vf" BondLength="%g" LabelFont="3" LabelSize="10">' % L_PX,
-           '<fonttable><font id="3" charset="iso-8859-1" name="Arial"/></fonttable>', '<page id="1" BoundingBox="0 0 2000 800">']
+           '<fonttable><font id="3" charset="iso-8859-1" name="Arial"/></fonttable>', '<page id="1" BoundingBox="0 0 3000 800">']
     intended = {}
     texts = []
     for k, fr in enumerate(spec["frags"]):
@@ -400,6 +414,9 @@ def write_drawing(spec, path):
         intended[label] = str(fid)
         texts.append('<t id="%d" p="%.2f %.2f"><s font="3" size="10" face="1">%s</s></t>' % (next(ids), (min(xs) + max(xs)) / 2, max(ys) + 22.0, label))
     out += texts
+    if spec.get("orphan"):
+        # a bold-face caption with NO structure drawn above it (it sits above the top row): it names nothing
+        out.append('<t id="%d" p="60 12"><s font="3" size="10" face="1">ORPHAN</s></t>' % next(ids))
     if spec.get("caption"):
         # a caption that is NOT a label (plain face): must be ignored
         out.append('<t id="%d" p="30 30"><s font="3" size="10" face="0">scheme 1</s></t>' % next(ids))
@@ -424,7 +441,7 @@ def strat_drawn(tier):
                                   "atoms": st.lists(atom, min_size=1, max_size=7), "orders": st.lists(st.integers(0, 4), min_size=1, max_size=7), "subs": st.lists(sub, max_size=6)})   # (stereo marks on skeleton bonds of NEW drawings are not generated: the unchanged tree's ring-bond heuristic does not
                                                                       #  satisfy the mirror relation on them - outside the quantifier, see DESIGN 10.4)
     ops = st.lists(st.sampled_from(["permute_top", "translate", "renumber", "permute_nodes", "group_all"]), max_size=2, unique=True)
-    return st.fixed_dictionaries({"drawing": st.fixed_dictionaries({"frags": st.lists(frag, min_size=1, max_size=3), "caption": st.booleans()}), "ops": ops, "seed": st.integers(0, 10**6)})
+    return st.fixed_dictionaries({"drawing": st.fixed_dictionaries({"frags": st.lists(frag, min_size=1, max_size=6), "caption": st.booleans(), "orphan": st.sampled_from([False, False, True])}), "ops": ops, "seed": st.integers(0, 10**6)})
 
 
 _RESOLVE_CACHE = {}
@@ -520,7 +537,22 @@ def check(recipe) -> list[Fail]:
         mpath = os.path.join(d, "mirrored.cdxml")
         make_variant(path, ["mirror"], 0, mpath)
         mir = _open(mpath)
+        if "drawing" in recipe and recipe["drawing"].get("orphan") and only is None:
+            # asking for the orphan caption is refused - every time, also after a first refusal
+            outcomes = []
+            for _ in range(3):
+                try:
+                    with warnings.catch_warnings():
+                        warnings.simplefilter("ignore")
+                        m_ = var["ORPHAN"]
+                    outcomes.append(f"returned {m_.n_atoms} atoms")
+                except Exception as e:
+                    outcomes.append(type(e).__name__)
+            if any(o.startswith("returned") for o in outcomes):
+                fails.append(Fail("caption-without-a-structure-above-it-resolves-to-a-fragment", f"{fname} ops={ops}: three requests gave {outcomes}", recipe=dict(recipe)))
         for key in keys:
+            if key == "ORPHAN":
+                continue
             if only is not None and key != only:
                 continue
             if key in ambiguous:
@@ -568,7 +600,7 @@ def check(recipe) -> list[Fail]:
             if mv.charge != q or mv.mult != s2 + 1:
                 fails.append(Fail("total-charge-or-multiplicity-wrong", f"{where}: charge {mv.charge} mult {mv.mult}, drawing gives {q} / {s2 + 1}", recipe=sub))
             # -- label resolves to the same fragment as in the original file
-            if not iso(g0, gv):
+            if "recharge" not in ops and not iso(g0, gv):
                 fails.append(Fail("label-resolves-to-different-fragment", f"{where}: original {describe(g0)} | variant {describe(gv)}", recipe=sub))
                 continue
             # -- determinism also across the history of one handle: the first result is edited by its owner,
@@ -642,7 +674,7 @@ def enum_identity(tier, shard, nshards):
 
 
 def strat_variants(tier):
-    ops = st.lists(st.sampled_from(["permute_top", "translate", "renumber", "permute_nodes", "group_all"]), min_size=1, max_size=4, unique=True)
+    ops = st.lists(st.sampled_from(["permute_top", "translate", "renumber", "permute_nodes", "group_all", "recharge"]), min_size=1, max_size=4, unique=True)
     return st.fixed_dictionaries({"file": st.sampled_from(FILES), "ops": ops, "seed": st.integers(0, 10**6)})
 
 
